@@ -81,6 +81,30 @@ def run_sites(ctx, chk, bodies, prefix="D1"):
     return total, kinds
 
 
+def raw_copies_bounded(ctx, chk, rid):
+    """shared by C17 and C20: every raw pointer copy OUT of a byte slice (the decoders' native-layout fast path, the
+    mmap writer) reads no more than the slice holds. Scans every workspace body, not only the tabled decoders."""
+    P = ctx.P
+    D = getattr(ctx, "_decode", None)
+    if D is None:
+        D = decode.Decode(P)
+        ctx._decode = D
+    n = 0
+    for bid in sorted(P.bodies):
+        F = P.bodies[bid]
+        if F.krate not in ("rawdb", "vecdb"):
+            continue
+        for s_ in D.raw_copy_sites(F):
+            if not s_["operands"]:
+                continue
+            n += 1
+            chk.oblige("%s %s: raw copy at %s stays inside its source slice (%s)" % (rid, _fn(bid), s_["span"], s_["why"]),
+                       s_["ok"], detail=s_, key="%s|%s|raw-copy" % (rid, _fn(bid)),
+                       msg="raw copy out of an input slice without a sufficient length check: %s (%s)" % (_fn(bid), s_["why"]))
+    if n < 2:
+        raise AnchorMissing("expected >= 2 raw copies out of slices (mmap writer, native-layout decoder), found %d" % n)
+
+
 def _fn(bid):
     m = re.search(r"<impl vecdb::bytes::Bytes for (.*?)>::from_bytes(.*)$", bid)
     if m:
@@ -186,6 +210,7 @@ def run(ctx, chk):
     bodies = decoder_bodies(P, O)
     if len(bodies) < 40:
         raise AnchorMissing("expected >= 40 decoder bodies (incl. numeric/array impls and closures), found %d" % len(bodies))
+    raw_copies_bounded(ctx, chk, "D10")
     for must in ("rawdb::region_metadata::RegionMetadata::from_bytes", "vecdb::base::header::inner::HeaderInner::from_bytes",
                  "vecdb::base::change::cursor::ChangeCursor::<'a>::read_values",
                  "vecdb::base::change::cursor::ChangeCursor::<'a>::check_remaining"):
